@@ -13,14 +13,14 @@ def plan(ctx):
     qs = []
     cpp = os.path.join(vf.VERIF, 'harness', 'c07.cpp')
     h = os.path.join(vf.VERIF, 'harness', 'c07.c')
-    LMAX = 6
-    shape = {'NSETUP': 3, 'SETUP_SHAPE': '{0,1,3}'}
-    for chunk, maxima in ((2, (3,)),):
+    shape = {'NSETUP': 3, 'SETUP_SHAPE': '{0,1,3}', 'SETUP_ONE_READ': 1}
+    for chunk, maxima in ((1, (2,)), (2, (2,)), (4, (1,))):
         unit = ctx.unit('c07_ops_c%d' % chunk, cpp=cpp, cxxflags=['-DCHUNK=%d' % chunk])
         for mx in maxima:
             cap = mx + chunk
+            LMAX = cap + 1
             for i, op in enumerate(OPS):
-                qs.append(vf.Query('op/chunk%d/max%d/%s' % (chunk, mx, op), unit, h, defines=dict(shape, CHUNK=chunk, LMAX=LMAX),
+                qs.append(vf.Query('op/chunk%d/max%d/%s' % (chunk, mx, op), unit, h, defines=dict(shape, CHUNK=chunk, LMAX=LMAX, MAXMAX=mx),
                                    cbmc_defines={'VF_SPLIT': 1, 'C07_OP': i, 'MAXIMUM': mx}, unwind=LMAX + 2,
                                    unwindset=[(REQ % chunk) + ':%d' % (cap + 1)], mem_gb=3))
     return qs
